@@ -30,9 +30,9 @@ Proof.
   intros fx e v1 v2 b1 H Hr. rewrite (veq_inv _ _ H). clear H. destruct v1 as [va vt vd vi si ss sq st sm q j].
   generalize (stat_mod v2) as m2. intros m2. cbn in *.
   destruct e; cbn in *.
-  - destruct (find va a); [|discriminate]. inversion Hr; subst. eexists; split; [reflexivity|]. unfold veq; cbn; intuition.
+  - destruct (find va a); [|discriminate]. destruct (f_create fx); inversion Hr; subst; eexists; (split; [reflexivity|]); unfold veq; cbn; intuition.
   - inversion Hr; subst. destruct (stake_equal newv oldv); eexists; (split; [reflexivity|]); unfold veq; cbn; intuition.
-  - inversion Hr; subst. destruct fx; eexists; (split; [reflexivity|]); unfold veq; cbn; intuition.
+  - inversion Hr; subst. destruct (f_journal fx); eexists; (split; [reflexivity|]); unfold veq; cbn; intuition.
   - destruct q; [inversion Hr; subst; eexists; split; [reflexivity|]; unfold veq; cbn; intuition|].
     destruct (q_delete_last (w :: q) r); [|discriminate]. inversion Hr; subst. eexists; split; [reflexivity|]. unfold veq; cbn; intuition.
   - inversion Hr; subst. eexists; split; [reflexivity|]. unfold veq; cbn; intuition.
@@ -74,7 +74,7 @@ Qed.
 
 Definition vlen (v : vside) : nat := length (j_entries (vjr v)).
 
-Definition vext (fx : bool) (v0 v : vside) : Prop :=
+Definition vext (fx : fixes) (v0 v : vside) : Prop :=
   exists k v1, vlen v = k + vlen v0 /\ v_revert fx k v = Some v1 /\ veq v1 v0.
 
 Lemma vext_refl : forall fx v, vext fx v v.
@@ -209,10 +209,12 @@ Opaque stat_apply b_add b_sub cnt_inc cnt_dec sat_sub.
 (* ---- side conditions under which the three journalled validator mutations
    are exactly invertible (all hold in states built through the API from an
    empty state; see Properties.v) ---- *)
-Definition create_ok (v : vside) (a : N) : Prop :=
+Definition create_ok (fx : fixes) (v : vside) (a : N) : Prop :=
   match find (vals v) a with
-  | Some x => v_deleted x = false                      (* the call is refused, nothing happens *)
-  | None => find (vtrie v) a = None /\ mem (vindex v) a = false /\ stat_ok (stat v)
+  | Some x => if v_deleted x
+              then f_create fx = true /\ stat_ok (stat v)   (* replaces a deleted live record: undone only by the repaired revert *)
+              else True                                     (* the call is refused, nothing happens *)
+  | None => find (vtrie v) a = None /\ (f_create fx = true \/ mem (vindex v) a = false) /\ stat_ok (stat v)
   end.
 Definition update_ok (v : vside) (a : N) : Prop :=
   match find (vals v) a with
@@ -233,18 +235,37 @@ Proof.
   destruct H as [H|H]; [congruence|]. now rewrite H.
 Qed.
 
+Lemma index_back : forall (idx : list N) a, (if mem idx a then add idx a else rem (add idx a) a) = idx.
+Proof.
+  intros idx a. destruct (mem idx a) eqn:E; [now apply add_mem_id | now apply rem_add_absent].
+Qed.
+
 Lemma op_create_validator : forall fx v a role status stake token,
-  create_ok v a -> vext fx v (fst (create_validator v a role status stake token)).
+  create_ok fx v a -> vext fx v (fst (create_validator v a role status stake token)).
 Proof.
   intros fx v a role status stake token H. unfold create_validator, get_validator, create_ok in *.
-  destruct (find (vals v) a) as [x|] eqn:Hf.
-  - rewrite H. cbn. apply vext_refl.
-  - destruct H as (Ht & Hi & Hs). rewrite Ht. cbn.
+  destruct (find (vals v) a) as [x0|] eqn:Hf.
+  - destruct (v_deleted x0) eqn:Hd; [|cbn; apply vext_refl].
+    destruct H as (Hc & Hs). cbn [fst].
+    destruct v as [va vt vd vi si ss sq st sm q j]. cbn in Hf, Hs.
     set (x := mkV a role status stake token 0 false).
-    eapply vext_one with (e := EValCreate a); [reflexivity | |].
-    + cbn. rewrite find_set_same. reflexivity.
-    + cbn. rewrite (del_set_absent _ _ _ Hf), (rem_add_absent _ _ Hi), d_dec_inc, journal_eta.
-      unfold veq; cbn. repeat split; auto. exact (stat_sub_add x _ Hs).
+    eapply vext_one with (e := EValCreate a (Some x0) (mem vi a)); [cbn; rewrite Hf; reflexivity | |].
+    + cbn. rewrite find_set_same, Hc. reflexivity.
+    + unfold veq; cbn. rewrite set_set, (set_same_id _ _ _ Hf), index_back, d_dec_inc, journal_eta.
+      repeat split; try reflexivity. exact (stat_sub_add x _ Hs).
+  - destruct H as (Ht & Hi & Hs). rewrite Ht. cbn [fst].
+    destruct v as [va vt vd vi si ss sq st sm q j]. cbn in Hf, Ht, Hi, Hs.
+    set (x := mkV a role status stake token 0 false).
+    destruct (f_create fx) eqn:Hc.
+    + eapply vext_one with (e := EValCreate a None (mem vi a)); [cbn; rewrite Hf; reflexivity | |].
+      * cbn. rewrite find_set_same, Hc. reflexivity.
+      * unfold veq; cbn. rewrite (del_set_absent _ _ _ Hf), index_back, d_dec_inc, journal_eta.
+        repeat split; try reflexivity. exact (stat_sub_add x _ Hs).
+    + destruct Hi as [Hi|Hi]; [discriminate|].
+      eapply vext_one with (e := EValCreate a None (mem vi a)); [cbn; rewrite Hf; reflexivity | |].
+      * cbn. rewrite find_set_same, Hc. reflexivity.
+      * unfold veq; cbn. rewrite (del_set_absent _ _ _ Hf), (rem_add_absent _ _ Hi), d_dec_inc, journal_eta.
+        repeat split; try reflexivity. exact (stat_sub_add x _ Hs).
 Qed.
 
 Lemma op_update_val : forall fx v a role status stake token payload,
@@ -288,8 +309,8 @@ Proof.
 Qed.
 
 (* ======================================================================= *)
-(* The repaired code (fx = true): RemoveValidator and RemoveWithdrawRecords
-   are undone exactly as well.                                              *)
+(* The code since fix fe4c1ff (fx = true): RemoveValidator and
+   RemoveWithdrawRecords are undone exactly as well.                        *)
 
 Definition remove_ok (v : vside) (a : N) : Prop :=
   match find (vals v) a with
@@ -297,17 +318,17 @@ Definition remove_ok (v : vside) (a : N) : Prop :=
   | None => True
   end.
 
-Lemma op_remove_validator_fixed : forall v a,
-  remove_ok v a -> vext true v (fst (remove_validator true v a)).
+Lemma op_remove_validator_fixed : forall fx v a,
+  f_journal fx = true -> remove_ok v a -> vext fx v (fst (remove_validator fx v a)).
 Proof.
-  intros v a H. unfold remove_validator, remove_ok in *.
+  intros fx v a Hfx H. unfold remove_validator, remove_ok in *. rewrite Hfx.
   destruct (find (vals v) a) as [x|] eqn:Hf; [|cbn; apply vext_refl].
   destruct H as (Ha & Hi & Hs & Hc). cbn [fst].
   destruct v as [va vt vd vi si ss sq st sm q j]. cbn in Hf, Hi, Hs, Hc.
   assert (Hset : set (set va a (set_v_deleted true x)) (v_addr x) x = va).
   { rewrite Ha, set_set. now apply set_same_id. }
   assert (Hidx : add vi (v_addr x) = vi) by (rewrite Ha; now apply add_mem_id).
-  eapply vext_one with (e := EValDelete a x); [reflexivity | reflexivity |].
+  eapply vext_one with (e := EValDelete a x); [reflexivity | cbn; rewrite Hfx; reflexivity |].
   unfold veq; cbn. rewrite Hset, Hidx, d_dec_inc, journal_eta.
   rewrite (stat_add_sub x _ Hs Hc). repeat split; reflexivity.
 Qed.
@@ -441,27 +462,28 @@ Proof.
     rewrite E, D. cbn. rewrite <- app_assoc. cbn. repeat split; try reflexivity; apply R.
 Qed.
 
-Lemma v_revert_dw : forall l v old,
+Lemma v_revert_dw : forall fx l v old,
+  f_journal fx = true ->
   j_entries (vjr v) = map dw_entry l ++ old ->
-  exists b, v_revert true (length l) v = Some b /\
+  exists b, v_revert fx (length l) v = Some b /\
             j_entries (vjr b) = old /\ j_dirties (vjr b) = j_dirties (vjr v) /\
             queue b = fold_left reins l (queue v) /\
             vals b = vals v /\ vtrie b = vtrie v /\ vdirty b = vdirty v /\ vindex b = vindex v /\ sv_index b = sv_index v /\
             sv_stat b = sv_stat v /\ sv_queue b = sv_queue v /\ stat b = stat v.
 Proof.
-  induction l as [|rp l IH]; intros v old He; cbn in *.
+  intros fx l v old Hfx. revert v. induction l as [|rp l IH]; intros v He; cbn in *.
   - exists v. repeat split; auto.
-  - rewrite He. cbn.
+  - rewrite He. cbn. rewrite Hfx.
     set (v1 := set_vjr (mkJ (map dw_entry l ++ old) (j_dirties (vjr (set_queue (ins_at (snd rp) (fst rp) (queue v)) v))))
                        (set_queue (ins_at (snd rp) (fst rp) (queue v)) v)).
-    destruct (IH v1 old eq_refl) as (b & Hb & E1 & E2 & E3 & R).
+    destruct (IH v1 eq_refl) as (b & Hb & E1 & E2 & E3 & R).
     exists b. split; [exact Hb|]. cbn in *. repeat split; try tauto; try apply R.
 Qed.
 
-Lemma op_remove_withdraws_fixed : forall v idx b,
-  NoDup idx -> remove_withdraws true v idx = Some b -> vext true v b.
+Lemma op_remove_withdraws_fixed : forall fx v idx b,
+  f_journal fx = true -> NoDup idx -> remove_withdraws fx v idx = Some b -> vext fx v b.
 Proof.
-  intros v idx b Hnd H. unfold remove_withdraws in H. cbn in H.
+  intros fx v idx b Hfx Hnd H. unfold remove_withdraws in H. rewrite Hfx in H. cbn in H.
   destruct (nths (queue v) (sort_desc idx)) as [removed|] eqn:En; [|discriminate]. inversion H; subst b. clear H.
   set (P := sort_desc idx) in *. set (l := combine removed P).
   set (v0 := set_queue (drop_idx (queue v) idx 0) v).
@@ -470,7 +492,7 @@ Proof.
   set (b := fold_left (fun acc rp => v_append (dw_entry rp) acc) l v0) in *.
   destruct Hf as (E & D & F1 & F2 & F3 & F4 & F5 & F6 & F7 & F8 & F9 & F10).
   rewrite <- map_rev in E.
-  destruct (v_revert_dw (rev l) b (j_entries (vjr v0)) E) as (c & Hc & C1 & C2 & C3 & G1 & G2 & G3 & G4 & G5 & G6 & G7 & G8).
+  destruct (v_revert_dw fx (rev l) b (j_entries (vjr v0)) Hfx E) as (c & Hc & C1 & C2 & C3 & G1 & G2 & G3 & G4 & G5 & G6 & G7 & G8).
   exists (length l), c. unfold vlen. split; [|split].
   - rewrite E, app_length, map_length, rev_length. reflexivity.
   - rewrite <- (rev_length l). exact Hc.
@@ -479,4 +501,43 @@ Proof.
     + unfold l. rewrite (drop_idx_ext (queue v) idx P 0) by (intros x; unfold P; now rewrite sort_desc_in).
       apply reinsert_all; [apply sort_desc_sdesc; exact Hnd | exact En].
     + destruct (vjr c) as [ce cd] eqn:Ej. cbn in C1, C2. subst ce cd. rewrite D. unfold v0. cbn. apply journal_eta.
+Qed.
+
+(* ---- Finalise / IntermediateRoot respect veq ------------------------------ *)
+Lemma veq_destruct : forall v1 v2, veq v1 v2 -> exists m, v2 =
+  mkVS (vals v1) (vtrie v1) (vdirty v1) (vindex v1) (sv_index v1) (sv_stat v1) (sv_queue v1) (stat v1) m (queue v1) (vjr v1).
+Proof. intros v1 v2 H. exists (stat_mod v2). now apply veq_inv. Qed.
+
+Lemma fold_veq {A} : forall (f : vside -> A -> vside) l v1 v2,
+  (forall x b1 b2, veq b1 b2 -> veq (f b1 x) (f b2 x)) -> veq v1 v2 -> veq (fold_left f l v1) (fold_left f l v2).
+Proof. induction l; intros; cbn; auto. Qed.
+
+Lemma v_finalise_veq : forall v1 v2, veq v1 v2 -> veq (v_finalise v1) (v_finalise v2).
+Proof.
+  intros v1 v2 H. unfold v_finalise.
+  assert (Hj : vjr v1 = vjr v2) by (unfold veq in H; tauto). rewrite Hj.
+  apply veq_set_vjr. apply fold_veq; auto.
+  intros x b1 b2 Hb. destruct (veq_destruct _ _ Hb) as (m & ->).
+  destruct b1 as [va vt vd vi si ss sq st sm q j]; cbn.
+  destruct (find va x); unfold veq; cbn; intuition.
+Qed.
+
+Lemma v_flush_one_veq : forall d x b1 b2, veq b1 b2 -> veq (v_flush_one d b1 x) (v_flush_one d b2 x).
+Proof.
+  intros d x b1 b2 Hb. destruct (veq_destruct _ _ Hb) as (m & ->).
+  destruct b1 as [va vt vd vi si ss sq st sm q j]; unfold v_flush_one; cbn.
+  destruct (find va x) as [y|]; [|unfold veq; cbn; intuition].
+  destruct (v_deleted y || d && is_invalid y); unfold veq; cbn; intuition.
+Qed.
+
+Lemma v_intermediate_root_veq : forall d v1 v2, veq v1 v2 -> veq (v_intermediate_root d v1) (v_intermediate_root d v2).
+Proof.
+  intros d v1 v2 H. unfold v_intermediate_root.
+  pose proof (v_finalise_veq _ _ H) as Hf.
+  assert (Hd : vdirty (v_finalise v1) = vdirty (v_finalise v2)) by (unfold veq in Hf; tauto). rewrite Hd.
+  assert (Hg : veq (fold_left (v_flush_one d) (vdirty (v_finalise v2)) (v_finalise v1))
+                   (fold_left (v_flush_one d) (vdirty (v_finalise v2)) (v_finalise v2)))
+    by (apply fold_veq; auto using v_flush_one_veq).
+  destruct (veq_destruct _ _ Hg) as (m & ->).
+  destruct (fold_left (v_flush_one d) (vdirty (v_finalise v2)) (v_finalise v1)); unfold veq; cbn; intuition.
 Qed.
